@@ -110,6 +110,25 @@ CHECKS = {
               'agree with the truth tables.'),
         design_ref='DESIGN.md section 5 C11',
         note='Agreement between logics only; the per-pair count of valid arguments is reported in the evidence.'),
+    'C08': dict(
+        category='exploration',
+        technique='Hypothesis-generated histories of model-API calls (two orders of the same calls) against an independent reference evaluator; metamorphic order-independence',
+        text=('Consistent facts drawn from a target model are supplied through the public set_* / R.add API in two different '
+              'orders; after finish() every drawn sentence (quantifiers and modal operators included) is evaluated at every world '
+              'by the library and by vf/refsem.py over the supplied facts alone, the finished access relation is compared with the '
+              'required closure, and the two orders must agree on values and exported data. Classical identity / existence '
+              'completion is part of the reference.'),
+        design_ref='DESIGN.md section 5 C08, section 4',
+        note='Trusted: vf/refsem.py. Models have <= 3 worlds and constants; FDE-family N/B differences are excluded and counted.'),
+    'C20': dict(
+        category='exploration',
+        technique='Hypothesis-generated models (API histories and open-branch models of random proofs); round-trip oracle between get_data() and value_of over all tuples',
+        text=('For models built through the API and models the library reads from open branches, the exported description is '
+              'compared with the model itself: worlds and access pairs, every letter / uninterpreted sentence value per world, and '
+              'for every predicate every tuple over the constants (in extension iff evaluates to T/B, in anti-extension iff F/B); '
+              'sortedness and determinism of the export.'),
+        design_ref='DESIGN.md section 5 C20',
+        note='The library evaluator is the reference here (C08 judges the evaluator itself).'),
 }
 
 NOT_YET = 'check not built yet in this session (planned, see DESIGN.md section 5); no claim is made'
